@@ -33,7 +33,7 @@ def _side(body, atoms):
         if st[0] == 'p':
             nm = body.local_name(st[1]) or 'p%d' % st[1]
             q = [x for x in st[2] if not str(x).isdigit()]
-            lab = nm + ''.join('.' + str(x) for x in q[:2])
+            lab = nm + ''.join('.' + str(x) for x in q[:4])
             if a[0] in ('len',) or (a[0] in ('nr', 'mod', 'h') and a[1][0] == 'len'):
                 lab = 'len(%s)' % lab
                 mark = ''
@@ -47,6 +47,9 @@ def _side(body, atoms):
     if names:
         return tuple(sorted(names))
     return tuple('#' + x for x in sorted(lits)) if lits else ('#',)
+
+
+UNARY = ('is_zero', 'is_identity', 'is_none', 'is_some', 'is_empty', 'is_ok', 'is_err', 'is_torsion_free', 'is_on_curve')
 
 
 def _envs():
@@ -70,7 +73,8 @@ def _const_eval(fd, op, val, depth=0):
             except ValueError:
                 return None
         nm = str(op.get('uneval') or op.get('disp') or '').split('::')[-1]
-        return val(nm) if nm.isidentifier() else None
+        # numeric parameters of a ciphersuite (le, lm, ln, ls, t, l, ..): group constants (IDENTITY, ZERO, GENERATOR) are values, not numbers
+        return val(nm) if nm.isidentifier() and (nm.islower() or nm == 'SECPARAM') and str(op.get('ty', '')) in ('u32', 'usize', 'u64', 'i32', '') else None
     if op.get('k') not in ('copy', 'move'):
         return None
     pl = op['pl']
@@ -172,9 +176,14 @@ def _pred_tag(eng, g, i):
 
 def relation_of(body, g, eng=None):
     """(relation, side, side) of one test with the outcome it has on the accept path, or None when it is not a comparison of two sides"""
-    if g.kind not in ('cmp', 'call') or len(g.operands) < 2:
+    if g.kind not in ('cmp', 'call') or not g.operands:
         return None
     w = (g.what or '').split('::')[-1]
+    if len(g.operands) == 1:
+        # a predicate of one value (`point.is_none()`, `s.is_zero()`): which verdict lets the function go on
+        if w in UNARY and g.truth is not None and not g.quant:
+            return (('' if g.truth else '!') + w, _side(body, g.operands[0]), ())
+        return None
     ops = g.operands
     if g.kind == 'call' and w in ('cmp', 'partial_cmp') and g.const_ops:
         c = str(g.const_ops[-1])
@@ -190,6 +199,12 @@ def relation_of(body, g, eng=None):
         if '{closure' not in (g.fn or ''):
             tv = None      # a test inside a function the predicate hands the element to: its own outcome there is not what the quantifier's outcome says
             handed_on = True
+        elif tv is not None and isinstance(g.chain, str) and g.chain.startswith('in:'):
+            # the predicate is `a && b` / `a || b`: its verdict fixes one part only when it is true (and) / false (or)
+            pv = (q == 'all')         # the predicate's verdict for every element
+            kinds = g.chain[3:].split(',')
+            if any(k == 'mixed' or (k == 'and' and not pv) or (k == 'or' and pv) for k in kinds):
+                tv = None
     a, b = _side(body, ops[0]), _side(body, ops[-1] if len(ops) == 2 else ops[1])
     if eng is not None and g.kind == 'call':
         ca, cb = _const_side(eng, g, 0, ops[0]), _const_side(eng, g, 1, ops[1])
@@ -269,7 +284,8 @@ def _op(r):
 
 def _family(op):
     op = op.lstrip('?~')
-    return 'order' if op in ('<', '<=') else 'equality' if op in ('==', '!=') else op.lstrip('!')
+    fam = {'is_none': 'presence', 'is_some': 'presence', 'is_ok': 'result', 'is_err': 'result'}
+    return 'order' if op in ('<', '<=') else 'equality' if op in ('==', '!=') else fam.get(op.lstrip('!'), op.lstrip('!'))
 
 
 def _compat(a, b, loose=False):
@@ -314,6 +330,21 @@ def holds(r, now):
     return False
 
 
+BBS_DECODER_SCOPE = ('bbsplus::', 'utils::util::bbsplus_utils', 'utils::message::bbsplus_message')
+
+
+def bbs_decoders(prog):
+    """public functions of the BBS code that turn octets, coordinates or text into a value (`from_bytes*`, `from_coordinates`, `parse_*`, `decode*`)"""
+    out = []
+    for p, b in sorted(prog.bodies.items()):
+        if not p.startswith(BBS_DECODER_SCOPE) or b.from_expansion or b.kind == 'Closure' or '::tests::' in p:
+            continue
+        last = p.split('::')[-1]
+        if last.startswith(('from_bytes', 'from_coordinates', 'parse_', 'decode', 'from_hex', 'octets_to')):
+            out.append(p)
+    return out
+
+
 def other_functions(prog, scope=('cl03::', 'utils::random')):
     """the public functions of the scope that are no verifier entry point (issuing, committing, decoding, key handling)"""
     entries = {resolve_fn(prog, e).path for es in rf_gatesets.ENTRIES.values() for e in es}
@@ -321,13 +352,13 @@ def other_functions(prog, scope=('cl03::', 'utils::random')):
             and '::tests::' not in p and p not in entries]
 
 
-def rule_acceptance_senses(ctx, cfg='prod-all', group='cl03', only=None, scope=None, floor=1):
+def rule_acceptance_senses(ctx, cfg='prod-all', group='cl03', only=None, scope=None, floor=1, strict=True):
     prog = ctx.prog(cfg)
     table = load_table()
     n = 0
     if scope is not None:
         # the other public functions of a module: what every normal return of theirs has passed (their refusals are panics)
-        todo = [p for p in table if p.startswith(scope) and p in prog.bodies and p in set(other_functions(prog))]
+        todo = [p for p in table if p.startswith(scope) and p in prog.bodies and p in (set(other_functions(prog)) | set(bbs_decoders(prog)))]
         missing_fns = [p for p in table if p.startswith(scope) and p not in prog.bodies and not any(p == resolve_fn(prog, e).path for es in rf_gatesets.ENTRIES.values() for e in es)]
     else:
         todo = [e for e in rf_gatesets.ENTRIES[group] if not only or any(e.endswith(o) for o in only)]
@@ -352,7 +383,19 @@ def rule_acceptance_senses(ctx, cfg='prod-all', group='cl03', only=None, scope=N
             fam = _family(_op(r))
             alt = [x for x in now if not holds(r, {x}) and len(x) == len(r) == 3 and _family(_op(x)) == fam and not _op(x).startswith('?~') and
                    ((_compat(r[1], x[1], True) and _compat(r[2], x[2], True)) or (_compat(r[1], x[2], True) and _compat(r[2], x[1], True)))]
-            (turned if alt else gone).append({'tabled': _fmt(r), 'now': [_fmt(x) for x in alt][:3]})
+            some = sum(1 for ps_ in paths if holds(r, ps_))
+            if not strict:
+                # code that the fixture vectors run, with counts and positions decided exactly by the region rule (RF-V): only an equality or a
+                # predicate whose outcome is now *known* to be the other one counts (an order between machine integers changes strictness with
+                # every `- 1` moved to the other side; an outcome the analysis cannot fix is not evidence here)
+                alt = [x for x in alt if not _op(x).startswith('?')] if fam != 'order' else []
+                some = 0
+            if alt:
+                turned.append({'tabled': _fmt(r), 'now': [_fmt(x) for x in alt][:3]})
+            elif some:
+                turned.append({'tabled': _fmt(r), 'now': 'holds on %d of %d accept paths only' % (some, len(paths))})
+            else:
+                gone.append({'tabled': _fmt(r), 'now': []})
         yield Ob('RF-S', '%s#acceptance-senses' % body.path, not turned,
                  'every comparison acceptance rested on still holds the same way round, with the same strictness and the same outcome on every accept path',
                  body.span, fact={'tabled': len(table[body.path]), 'accept_paths': len(paths), 'turned': turned[:8], 'no_longer_compared_this_way': [g_['tabled'] for g_ in gone][:8]},
